@@ -9,7 +9,7 @@ namespace verif {
 const PropertyInfo kInfo = {
     "C39", 8, 8, 24,
     "tape -> two Nodes with key rotation intervals from {5,7,30,300,3600} s (equal or different), a mutual PoW-valid handshake and a real loopback transport session "
-    "(B listens, A connects; B registers the handshake {0,1ns,3ms,1s} after A); B's steady clock is skewed against A's by {0,1ns,1ms,3s} (per-thread skew of the interposed clock while B ticks). History of tick(A), tick(B), "
+    "(B listens, A connects — in a quarter of the cases only after one or two rotations that both ends perform while not yet connected, the dial then happens inside the handshake cooldown and B speaks first; in half of the cases A also knows a third peer; B registers the handshake {0,1ns,3ms,1s} after A); B's steady clock is skewed against A's by {0,1ns,1ms,3s} (per-thread skew of the interposed clock while B ticks). History of tick(A), tick(B), "
     "advance (to A's/B's next rotation instant exactly / +-1ns / random), send A->B, send B->A, joint step (advance past both intervals, tick A and tick B at the same instant), B restarts (same peer id, new identity key; mutual re-handshake after the cooldown, A dials again, B speaks first). Oracle after every step: whenever both ends report the session open, their "
     "session keys for each other are equal, and a payload sent now arrives byte-identical in the other end's message handler (real-time wait <= 2 s, timeout = inconclusive). "
     "Signature distinguishes divergence without any rotation, divergence after rotations at different instants / different counts on the two ends (the listed finding) and divergence although both ends rotated at identical instants. Non-trivial: both ends rotated at the same instant, a peer restart, >= 1 rotation happened on either side while the session was open "
@@ -47,13 +47,14 @@ void run_case(Ctx& c) {
         cfg->nat_stun_enabled = false;
         cfg->relay_enabled = false;
         cfg->cleanup_interval = seconds(3600);
-        cfg->handshake_cooldown = seconds(5);
+        cfg->handshake_cooldown = ((t.h(6) & 6) == 6) ? seconds(3600) : seconds(5);   // late-connect cases dial inside the handshake cooldown
     }
     ca.key_rotation_interval = seconds(kRot[t.h(0) % 8]);
     cb.key_rotation_interval = (t.h(1) & 1) ? ca.key_rotation_interval : seconds(kRot[t.h(2) % 8]);
     ca.identity_seed = 3901;
     cb.identity_seed = 3902 + t.h(3) % 4;
-    const nanoseconds skewB{kSkew[t.h(4) % 4]};
+    const bool late_connect = (t.h(6) & 6) == 6;   // 1/4: rotate (at identical instants, hence no skew) before the session is opened
+    const nanoseconds skewB{late_connect ? 0 : kSkew[t.h(4) % 4]};
     c.note("rotA=%llds rotB=%llds skewB=%lldns", (long long)ca.key_rotation_interval.count(), (long long)cb.key_rotation_interval.count(), (long long)skewB.count());
 
     // the responder registers the shared handshake a little later than the initiator (a real exchange is never simultaneous)
@@ -70,6 +71,16 @@ void run_case(Ctx& c) {
     auto wait_for = [&](auto pred) { for (int i = 0; i < 10000; ++i) { if (pred()) return true; std::this_thread::sleep_for(std::chrono::microseconds(200)); } return false; };
     auto& sa = vnode::Access::sessions(A);
     std::array<std::uint8_t, 32> baseA{}, baseB{};
+    const int late_rotations = late_connect ? 1 + ((t.h(6) >> 3) & 1) : 0;
+    bool first_establish = true;
+    std::vector<long long> pre_hist_a, pre_hist_b;
+    // a third peer known to A only (a shared secret, no session): A's key manager then holds more than one context
+    if (t.h(6) & 1) {
+        crypto::Key k3{};
+        Prng(3933).fill(k3.bytes.data(), k3.bytes.size());
+        A.register_shared_secret(vnode::make_id(393, 0xC7), k3);
+        c.label("third_peer_known_to_one_end");
+    }
     // (re-)establish: mutual PoW-valid handshake, then A dials B.  false = inconclusive (could not connect)
     auto establish = [&]() -> bool {
         Node& B = *Bp;
@@ -81,6 +92,23 @@ void run_case(Ctx& c) {
         if (!A.perform_handshake(B.id(), B.public_identity(), *wb)) c.fail("C39:harness-error", "handshake refused by A");
         vclock::advance(reg_gap);
         if (!B.perform_handshake(A.id(), A.public_identity(), *wa)) c.fail("C39:harness-error", "handshake refused by B");
+        // late connect: the two ends have shaken hands but are not connected while they rotate (at the same virtual instants);
+        // the session is only opened afterwards, still inside the handshake cooldown
+        if (late_rotations > 0 && first_establish) {
+            for (int q = 0; q < late_rotations; ++q) {
+                vclock::advance(std::max(A.config().key_rotation_interval, B.config().key_rotation_interval) + reg_gap + seconds(1));
+                auto ba = A.session_key(B.id());
+                A.tick();
+                if (A.session_key(B.id()) != ba) pre_hist_a.push_back(vclock::now_offset().count());
+                auto bb = B.session_key(A.id());
+                vclock::set_thread_skew(skewB, skewB);
+                B.tick();
+                vclock::set_thread_skew(nanoseconds(0), nanoseconds(0));
+                if (B.session_key(A.id()) != bb) pre_hist_b.push_back((vclock::now_offset() + skewB).count());
+            }
+            c.label("rotated_before_connecting");
+        }
+        first_establish = false;
         if (!A.connect_peer(B.id(), "127.0.0.1", B.transport_port())) return false;
         auto& sb0 = vnode::Access::sessions(B);
         if (!wait_for([&] { return sa.is_connected(B.id()) && sb0.is_connected(A.id()); })) return false;
@@ -90,6 +118,7 @@ void run_case(Ctx& c) {
         return true;
     };
     if (!establish()) { c.label("connect_failed_inconclusive"); return; }
+    const bool speak_first_b = late_rotations > 0;
 #define B (*Bp)
 #define sb (vnode::Access::sessions(*Bp))
 
@@ -134,6 +163,11 @@ void run_case(Ctx& c) {
         c.label("message_delivered");
     };
 
+    if (speak_first_b) {
+        // rotated while disconnected at identical instants (otherwise it is the listed finding's shape): the acceptor speaks first
+        if (pre_hist_a == pre_hist_b) { c.nt("acceptor_speaks_first_after_late_connect"); send_and_check(false); check("the late connect"); }
+        else { c.count_excluded("C39:diverged-after-rotation"); return; }
+    }
     for (std::size_t i = 0; i < t.nrec(); ++i) {
         Rec r = t.r(i);
         switch (r.op() % 16 == 15 ? 6 : r.op() % 16 == 14 ? 7 : r.op() % 6) {
